@@ -54,6 +54,12 @@ def run(ctx):
     for f in oracle_bad:
         per_kind.setdefault((f["kind"], f.get("fingerprint", "")), []).append(f)
     for (kind, fp), fs in per_kind.items():
+        if kind == "translator_out_of_date":
+            # not a failing input of the property: the translator no longer matches the IR
+            ctx.violation("translator of the Lowered IR is out of date: " + fs[0]["why"],
+                          {"theorem_or_correspondence": "translator harness/h08/src/trans.rs vs objects.rs",
+                           "example": fs[0]}, found_input=False)
+            continue
         for f in fs[:1 if fp else 3]:
             what = {
                 "error_free_program_does_not_compile": "a program without error diagnostics does not compile: ",
@@ -63,7 +69,7 @@ def run(ctx):
             }.get(kind, kind + ": ") + f["why"][:300] + " [config " + str(f.get("config")) + "]"
             ctx.violation(what, dict(f, replay_cmd="./check C08 --tier %s" % ctx.tier), found_input=True,
                           fingerprint=fp or None)
-    if corr_bad and not [f for f in oracle_bad if not f.get("fingerprint")]:
+    if corr_bad and not [f for f in oracle_bad if not f.get("fingerprint") and f["kind"] != "translator_out_of_date"]:
         ctx.violation(
             "model of the borrow checker and the real borrow_check disagree on a translated function; "
             "C08_borrow_sound no longer transfers to the code",
